@@ -7,7 +7,6 @@ import (
 	"errors"
 	"fmt"
 	"io/fs"
-	"io/ioutil"
 	"os"
 	"path/filepath"
 	"regexp"
@@ -187,7 +186,7 @@ func (db *DB) saveSchema(o Object, s *Schema, override bool) (err error) {
 	}
 
 	if override || !isFileAndExist(path) {
-		if err = ioutil.WriteFile(path, data, DefaultPermissions); err != nil {
+		if err = writeFileAtomic(path, data, DefaultPermissions); err != nil {
 			return
 		}
 	}
